@@ -102,9 +102,65 @@ def run_sets(res, wd, sets, name):
     return run, per
 
 
+def ac_pass(res, wd, sets, tier):
+    """white-box: the candidates the automaton hands to verification (hook H4) for the atoms inserted (hook H3) must be exactly
+    the atoms ending at each position - AhoCorasick!ACTraceOK"""
+    exe = yv.driver("asan")
+    lines = ["init", "opt iterlog 0", "opt logmatches 0", "opt quietnomatch 1", "opt achooks 1"]
+    for si, s in enumerate(sets):
+        lines.append("note s%d" % si)
+        lines.append("compiler 0")
+        lines += cond.EXT_DEFS
+        for ns, src in s["units"]:
+            lines.append("add 0 %s %s" % (ns or "-", yv.hx(src.encode("latin-1"))))
+        lines += ["getrules 0 0", "cdestroy 0", "scanner 0 0"]
+        for b in s["bufs"][:6]:
+            lines += ["data 1 %s" % yv.hx(b[:160]), "scan 0 1 mem - - -"]
+        lines += ["sdestroy 0", "rdestroy 0"]
+    lines.append("finalize")
+    run = yv.run_script(exe, lines, wd, name="c05_ac")
+    if not run.complete:
+        res.violation("driver did not complete (automaton pass): " + yv.crash_summary(run), yv.save_replay("C05", "crash_ac", {"crash": yv.crash_summary(run)}))
+        return
+    records, owners = [], []
+    cur = None
+    for e in run.events:
+        if e["e"] == "Note" and e["text"].startswith("s"):
+            cur = {"si": int(e["text"][1:]), "atoms": [], "scan": -1, "cands": None, "ok": True}
+        elif cur is None: continue
+        elif e["e"] == "Compile" and e["ret"] != 0: cur["ok"] = False
+        elif e["e"] == "Atom": cur["atoms"].append({"s": e["s"] + 1, "b": e["b"], "bt": e["bt"]})
+        elif e["e"] == "ScanCall": cur["scan"] += 1; cur["cands"] = []
+        elif e["e"] == "Cand" and cur["cands"] is not None: cur["cands"].append([e["pos"], e["s"] + 1, e["bt"]])
+        elif e["e"] == "ScanRet" and cur["ok"] and e["ret"] == 0 and cur["cands"] is not None:
+            b = sets[cur["si"]]["bufs"][cur["scan"]][:160]
+            if len(cur["atoms"]) <= 400:
+                records.append({"kind": "ac", "atoms": cur["atoms"], "buf": list(b), "cands": cur["cands"]})
+                owners.append((cur["si"], cur["scan"], len(cur["atoms"]), len(cur["cands"])))
+            cur["cands"] = None
+    bad, known, states = func.tlc_judge2(records, wd, "c05_ac")
+    res.cov["states"] += states; res.cov["transitions"] += states
+    res.cov["traces_validated_against_impl"] += len(records) - len(bad)
+    res.cov["parts"]["automaton_traces"] = len(records)
+    for b in bad[:5]:
+        res.violation("the candidates delivered by the automaton (rule set %d, buffer %d: %d atoms, %d candidates) are not the atoms ending at each position" % owners[b],
+                      yv.save_replay("C05", "ac_%d" % b, {"record": records[b]}))
+
+
 def c05(res, tier, seed):
     r = yv.rng(seed, "c05")
     wd = yv.workdir("C05")
+    m = yv.tlc("AhoCorasick", "MC_AC.cfg" if tier == "quick" else "MC_AC_thorough.cfg", wd, timeout=3000)
+    if not m["violated"]:
+        yv.require_tlc_ok(m, "MC_AC.cfg")
+    res.add_tlc("ahocorasick", m)
+    if m["violated"]:
+        res.violation("TLC: %s in the Aho-Corasick model" % m["violated"], yv.save_replay("C05", "model_ac", {"tlc": m["out"][-3000:]}))
+    for v in ("StrictBacktrack", "NoFailureLists", "BlindOptimise"):
+        t = yv.tlc("AhoCorasick", "MC_AC_%s.cfg" % v, wd, timeout=600, coverage=False)
+        if not t["violated"]:
+            raise yv.Broken("non-vacuity run MC_AC_%s.cfg found no violation" % v)
+        res.cov["parts"]["nonvacuity_" + v] = "violated as expected"
     nsets = 60 if tier == "quick" else 800
     sets = []
     idx = 0
@@ -211,6 +267,7 @@ def c05(res, tier, seed):
                     owners.append((c["body"], b.hex(), o["strings"], o["verdict"], len(s["cases"]), ci + si))
                     res.count(1, (c["body"], b))
     judge_and_report(res, "C05", records, owners, lambda o: {"rule": o[0], "buf": o[1][:300], "strings": o[2], "verdict": o[3], "company": o[4], "set": o[5]}, wd, "c05")
+    ac_pass(res, wd, [s for s in sets if s["cases"]][: (15 if tier == "quick" else 200)], tier)
     if owners:
         res.sample({"rule": owners[0][0], "compiled_with": owners[0][4], "buf": owners[0][1][:120]})
     units_check(res, r, wd, tier)
